@@ -10,21 +10,26 @@ use aquatic_udp::workers::socket::ConnectionValidator;
 
 use crate::common::machinery_failure;
 
-/// A port that is free for UDP and TCP on both loopback families right now
+/// A block of four consecutive ports, free for UDP and TCP on both loopback families right now.
+/// Blocks are handed out from a process-wide counter so that concurrently started trackers never collide.
 pub fn free_port() -> u16 {
-    for _ in 0..200 {
-        let s = match UdpSocket::bind("127.0.0.1:0") {
-            Ok(s) => s,
-            Err(_) => continue,
-        };
-        let p = s.local_addr().unwrap().port();
-        let ok = UdpSocket::bind(("::1", p)).is_ok() && std::net::TcpListener::bind(("127.0.0.1", p)).is_ok() && std::net::TcpListener::bind(("::1", p)).is_ok() && UdpSocket::bind(("0.0.0.0", p + 1)).is_ok();
-        drop(s);
-        if ok && p < 60000 {
+    use std::sync::atomic::{AtomicU32, Ordering};
+    static NEXT: AtomicU32 = AtomicU32::new(0);
+    let base = 20_000 + (std::process::id() % 97) * 300;
+    for _ in 0..2000 {
+        let k = NEXT.fetch_add(1, Ordering::SeqCst);
+        let p = (base + (k * 4) % 30_000) as u16;
+        if p < 1024 || p > 60_000 {
+            continue;
+        }
+        let ok = (0..4).all(|i| {
+            UdpSocket::bind(("0.0.0.0", p + i)).is_ok() && UdpSocket::bind(("::", p + i)).is_ok() && std::net::TcpListener::bind(("0.0.0.0", p + i)).is_ok() && std::net::TcpListener::bind(("::", p + i)).is_ok()
+        });
+        if ok {
             return p;
         }
     }
-    machinery_failure("no free port found");
+    machinery_failure("no free port block found");
 }
 
 pub struct UdpTracker {
@@ -330,7 +335,8 @@ impl HttpConn {
                             match self.stream.read(&mut tmp) {
                                 Ok(0) => return Err(HttpErr::Closed(self.buf.len())),
                                 Ok(k) => self.buf.extend_from_slice(&tmp[..k]),
-                                Err(_) => return Err(HttpErr::Timeout(self.buf.len())),
+                                Err(e) if e.kind() == std::io::ErrorKind::WouldBlock || e.kind() == std::io::ErrorKind::TimedOut => return Err(HttpErr::Timeout(self.buf.len())),
+                                Err(_) => return Err(HttpErr::Closed(self.buf.len())),
                             }
                         }
                         let body = self.buf[body_start..body_start + n].to_vec();
@@ -343,7 +349,8 @@ impl HttpConn {
             match self.stream.read(&mut tmp) {
                 Ok(0) => return Err(HttpErr::Closed(self.buf.len())),
                 Ok(k) => self.buf.extend_from_slice(&tmp[..k]),
-                Err(_) => return Err(HttpErr::Timeout(self.buf.len())),
+                Err(e) if e.kind() == std::io::ErrorKind::WouldBlock || e.kind() == std::io::ErrorKind::TimedOut => return Err(HttpErr::Timeout(self.buf.len())),
+                Err(_) => return Err(HttpErr::Closed(self.buf.len())),
             }
         }
     }
